@@ -360,6 +360,19 @@ def run_check(prop, tier):
             if real[0] == "raise":
                 for rho, rv in refs:
                     if rv is not None:
+                        if cx > 0 and isinstance(model, list) and model[0] == "raise":
+                            # the same shortcut can decide a divisor: (T >= T) is bit1, ~bit1 is 0, x / 0 raises
+                            m2 = drv.ask({"op": "expr.run", "script": script, "action": action, "cplx": cx, "topeq": False})
+                            if isinstance(m2, list) and m2[0] == "ok":
+                                ck.report("C01:value:top-hash-equality",
+                                          "with the complexity threshold on, a comparison of two `top` operands is decided by "
+                                          "hash(str)+size equality; here it makes a divisor 0 (script %s, complexity %d: real %s, reference %s)"
+                                          % (json.dumps(script)[:300], cx, real, sorted(rv[1])[:2]),
+                                          "oracle", "Amoco.C01 (apiExp hash-equality shortcut on `top`)",
+                                          case={"script": script, "action": action, "complexity": cx}, real=real, model=model,
+                                          expected=str(sorted(rv[1])[:2]))
+                                viol = True
+                                break
                         def fails(s2, rho=rho):
                             o2, d2, _ = R.run(s2, action, cx)
                             return o2[0] == "raise" and F.evaluate(s2, d2, rho) is not None
@@ -506,13 +519,17 @@ def run_check(prop, tier):
                 s = same(real, m, script, a)
             else:
                 s = same_width(real, m)
-            if s == "diff" and not v and real[0] == "ok" and isinstance(m, list) and m[0] == "ok" and real[3] == m[3] \
+            if s == "diff" and not v and real[0] == "ok" and isinstance(m, list) \
+                    and ((m[0] == "ok" and real[3] == m[3]) or m[:2] == ["raise", "div0"]) \
                     and any(i[0].startswith("raw") for i in script):
                 # a RAW node is not a fixpoint of simplify, and the real code simplifies operand OBJECTS in place
                 # (op.simplify assigns self.l/self.r; `t == bit1` inside tst.simplify, extend, ... re-simplify an
                 # object that is also held elsewhere): the real result can be MORE simplified than the functional
                 # model's.  There the tie is semantic: same width, the real result judged by the reference
                 # evaluator (above) and the Lean ideal value of the model result checked against it (above).
+                # (The extra simplification can also remove a division — a sub-tree turned into `top` by the
+                # threshold, `0 & (a/b)` folded on the second pass —, so that the model's evaluation divides by zero
+                # where the real one does not.)
                 s = "raw-inplace"
             ck.count("tie." + s)
             if s == "diff" and not v:
@@ -572,6 +589,7 @@ def run_check(prop, tier):
                   case={"script": script, "action": a, "complexity": cx}, real=real, model=m, failing_input_found=False)
     ck.oblige("correspondence model ~ real on build/simplify/eval", not corr_broken, "%d disagreements" % len(corr_broken))
     ck.assumptions += [
+        "the Lean ideal value of a model result is compared with the reference evaluator only when the result is SignOK (both operands of every sign-dependent operator carry one flag): the real operators read each operand with its own flag, `ideal` reads both with the left one",
         "string-hash collisions of CPython are not modelled (exp.__eq__ compares hash(str)+size)",
         "object identity is not modelled: where amoco itself places one object at two positions (extend, rol, bitslice) results are compared up to the sf flags of inner nodes (counted as tie.drift); likewise, under an environment that binds a register to a compound expression, eval hands out the stored objects (a C09 concern) and results are compared up to sf flags",
         "raw (constructor-built, unsimplified) nodes are simplified in place by the real code, also as a side effect of comparisons inside simplify; when such an object is held at two places the real result can be more simplified than the functional model's: on scripts with raw nodes a structural difference with equal width and passing value oracles is counted as tie.raw-inplace",
